@@ -250,6 +250,7 @@ type Found struct {
 	MapMode  int         `json:"mapMode"`
 	Path     []world.Op  `json:"path"`
 	Viol     Violation   `json:"violation"`
+	Custom   interface{} `json:"custom,omitempty"` // failing input of a non-E1 check
 }
 
 type Report struct {
